@@ -124,6 +124,17 @@ def removeUnproductive (A : DFTA σ Q) : DFTA σ Q :=
   let p := A.productive
   { rules := A.rules.filter (fun rule => decide (rule.2 ∈ p)), finals := A.finals }
 
+/-- `__remove_unproductive__` as it is in /repo BEFORE proposed fix C07-F1 (:113-125): a rule is
+    deleted only when its target is neither final nor an argument of any remaining rule, until
+    nothing changes.  Kept for the witness theorem `finding_C07_F1` only. -/
+def removeUnproductiveOld (A : DFTA σ Q) : Nat → DFTA σ Q
+  | 0 => A
+  | fuel + 1 =>
+    let consumed := A.finals ++ A.rules.flatMap (fun rule => rule.1.2)
+    let rules' := A.rules.filter (fun rule => decide (rule.2 ∈ consumed))
+    if rules'.length = A.rules.length then A
+    else removeUnproductiveOld { rules := rules', finals := A.finals } fuel
+
 /-- `DFTA.reduce` (:127-132) -/
 def reduce (A : DFTA σ Q) : DFTA σ Q := removeUnproductive (removeUnreachable A)
 
